@@ -1,11 +1,21 @@
-(* C13 — property theorems (statements only; the proofs live in Acme.C13.Proofs). *)
+(* C13 — property theorems (statements only; the proofs live in the Acme.C13.Proofs... files). *)
 From Coq Require Import ZArith List Bool.
 From Acme.C12 Require Import Proto NetModel Load.
-From Acme.C13 Require Import Proofs.
+From Acme.C13 Require Import ProofsWf Proofs.
 Import ListNotations.
 Open Scope Z_scope.
 
+(* the loader model is total: every protobuf tree is mapped to an error or to a network *)
 Theorem load_total : forall (now : time) (p : PNet),
   (exists c, load now p = Err c) \/ (exists n, load now p = Ok n).
 Proof. exact load_total_lemma. Qed.
 Print Assumptions load_total.
+
+(* a successful load only yields well-formed networks, for EVERY tree p whose size_byte fields
+   are non-negative (uint32 in the .proto): unique names and entity ids, references resolve,
+   every layout sorted / disjoint / in bounds, multiplexer groups consistent, attribute values
+   typed and bounded (NetModel.wfb) *)
+Theorem load_ok_wf : forall (now : time) (p : PNet) (n : net),
+  pnet_u32_ok p -> load now p = Ok n -> wfb n = true.
+Proof. exact load_ok_wf_lemma. Qed.
+Print Assumptions load_ok_wf.
